@@ -9,8 +9,8 @@ open Lean Einx.Driver Einx.Solve
 Request: `{"kind":"cse_trees","roots":[tree|null,…],"cse_concat":bool,"cse_in_brackets":bool}` (tree JSON as for
 `value_range`).  Answer: `{"ok":true,"out":[tree|null,…],"cands":[{"key":str,"occs":[[[root,path…],…],…]},…]}` or
 `{"ok":false,"error":msg}` when the model reaches one of the exceptions of the real code.
-`cse_check` (same request fields): `{"wf","used_ok","pairs_ok","check","events","used","unique_ids"}` (`unique_ids`: the side condition of
-`cseTrees_order_independent_partial`, Props/C16Cse.lean).
+`cse_check` (same request fields): `{"wf","used_ok","pairs_ok","check","events","used","filter_ok","unique_ids"}` (`filter_ok`, `unique_ids`: decidable
+forms of the proved facts `cse_trees_is_cse_step`, `candidates_unique_ids` — sanity checks of the model).
 `cse_enum` (same fields + `"order":"reverse"|"rotate"|"insertion"`): `{"result":{"ok",…},"unique_ids","candidates"}` — the
 model with another enumeration of the dict. -/
 namespace Einx.Driver.CseTrees
@@ -55,6 +55,7 @@ def handle (j : Json) : R Json := do
     pure (Json.mkObj [("wf", Json.bool (wfForest roots)), ("used_ok", Json.bool (evs.all usedOK)),
                       ("pairs_ok", Json.bool (evs.all (fun a => evs.all (fun b => pairOK a b)))),
                       ("check", Json.bool (cseCheck opts roots)), ("events", jNat evs.length), ("used", jNat nUsed),
+                      ("filter_ok", Json.bool (evs.all filtOKb)),
                       ("unique_ids", Json.bool (uniqueIds (candidates opts roots)))])
   | "cse_enum" =>
     -- C16: the model with another enumeration of the dict `str_to_common_expr` (`order`: "reverse" | "rotate")
